@@ -1,5 +1,6 @@
 import LarkVerif.Heap
 import LarkVerif.LRComplete
+import LarkVerif.LRError
 /-! # C13 — interactive parser: forks independent, resume equals parse -/
 namespace Props.C13
 open HeapProto ShapeProto
@@ -30,6 +31,27 @@ theorem resume_eq_parse (T : LRProto.Table) (eof fuel : Nat) (cfg cfg' : LRProto
     (h : LRProto.reduceLoop T t false fuel cfg = LRProto.Outcome.shifted cfg') :
     LRProto.parseFrom T eof fuel cfg (t :: rest) = LRProto.parseFrom T eof fuel cfg' rest := by
   simp [LRProto.parseFrom, h]
+
+/-- **Error states.** The stacks `feed_token` leaves behind when it raises (`reductionsOn`: the reductions made before the error was noticed stay, the
+    token is not consumed) still satisfy the driver invariant for the input consumed so far … -/
+theorem error_state_is_a_parser_state {G : EarleyProto.Grammar} {T : LRProto.Table} {s0 : Nat} (hT : LRProto.TableSafe G T s0) (t : Nat) (isEnd : Bool)
+    (fuel : Nat) (cfg : LRProto.Config) (consumed : List Nat) (h : LRProto.Inv G T cfg consumed) :
+    LRProto.Inv G T (LRProto.reductionsOn T t isEnd fuel cfg) consumed :=
+  LRProto.reductionsOn_inv hT t isEnd fuel cfg consumed h
+
+/-- … they are exactly the state the verdict was reached in (no action for the token on `error`; the shift on top of them on success) … -/
+theorem error_state_has_no_action (T : LRProto.Table) (t : Nat) (isEnd : Bool) (fuel : Nat) (cfg : LRProto.Config)
+    (h : LRProto.reduceLoop T t isEnd fuel cfg = LRProto.Outcome.error) :
+    ∃ q ss, (LRProto.reductionsOn T t isEnd fuel cfg).states = q :: ss ∧ T.action q t = none :=
+  (LRProto.reduceLoop_vs_reductionsOn T t isEnd fuel cfg).1 h
+
+/-- … and **resuming from an error state** (`resume_parse`, `on_error`, feeding further tokens) is as sound as a parse: what it accepts is a derivation
+    of the consumed input followed by the remaining tokens, the offending token excluded. -/
+theorem resume_from_error_state_sound {G : EarleyProto.Grammar} {T : LRProto.Table} {s0 : Nat} (hT : LRProto.TableSafe G T s0) (eof fuel fuel' t : Nat)
+    (cfg : LRProto.Config) (consumed rest : List Nat) (v : EarleyProto.Sym × List Nat) (hinv : LRProto.Inv G T cfg consumed)
+    (hacc : LRProto.parseFrom T eof fuel' (LRProto.reductionsOn T t false fuel cfg) rest = LRProto.Outcome.accept v) :
+    v.2 = consumed ++ rest ∧ EarleyProto.DerivesSeq G [EarleyProto.Sym.nt s0] (consumed ++ rest) :=
+  LRProto.resume_from_error_sound hT eof fuel fuel' t cfg consumed rest v hinv hacc
 
 -- non-vacuity: the aliased case really differs (a fork that still reaches the mutated list sees the change)
 example : den (appendInPlace (fun _ => [HV.tok 0 0]) 0 [HV.tok 1 1]) 1 (HV.tree 7 0) = some (Val.tree 7 [Val.tok 0 0, Val.tok 1 1]) := by rfl
